@@ -1,0 +1,32 @@
+//go:build verif
+
+// Contracts for the verif build tag: comment-only, read by /verif/engine (govc).
+package cache
+
+//@ # The key hashers write only into a pooled scratch buffer (sync.Pool): no DNS message, cache entry or
+//@ # table is modified. Their VALUE is deliberately left unspecified: every property proved over the
+//@ # tables holds for any hash function (collisions included).
+//@ func Key
+//@   trusted
+//@   modifies nothing
+//@ func KeyWithPrefix
+//@   trusted
+//@   modifies nothing
+//@
+//@ # Table operations touch only the tables' own state (types of this package); the stored values
+//@ # (cache entries), requests and responses are never written. Functional contracts: see C16.
+//@ func (*Cache).Get
+//@   trusted
+//@   modifies nothing
+//@ func (*Cache).CompareAndDelete
+//@   trusted
+//@   modifies pkgheap("internal/cache")
+//@ func (*Cache).CompareAndSwap
+//@   trusted
+//@   modifies pkgheap("internal/cache")
+//@ func (*Cache).Add
+//@   trusted
+//@   modifies pkgheap("internal/cache")
+//@ func (*Cache).Remove
+//@   trusted
+//@   modifies pkgheap("internal/cache")
